@@ -59,6 +59,10 @@ class Net:
     def connect(self, sock, host, port):
         return Peer()
 
+    def before_send(self, sock, data):
+        """hook: called at the start of every sendall(); may raise"""
+        return None
+
 
 class FakeSock:
     def __init__(self, net, family=None, type_=None, proto=None):
@@ -110,6 +114,7 @@ class FakeSock:
             if exc is not None:
                 raise exc
         data = bytes(data)
+        self.net.before_send(self, data)
         self.sent += data
         self.peer.client_sent(data)
 
